@@ -209,9 +209,13 @@ def extract(repo):
     b = body_of(bbr, r"fn\s+minimum_window\s*\(\s*max_datagram_size\s*:\s*(u\d+)\s*\)\s*->\s*u32\s*\{")
     mt = re.search(r"fn\s+minimum_window\s*\(\s*max_datagram_size\s*:\s*(u\d+)\s*\)", bbr)
     if m and b and mt and ws(b) == "(MIN_PIPE_CWND_PACKETS * max_datagram_size) as u32":
+        # pre-fix shape: product computed in the operands' own (u16) type, widened afterwards
         o.define("bbrMinPipeCwndPackets", "Nat", m.group(2), "bbr.rs MIN_PIPE_CWND_PACKETS; minimum_window = (MIN_PIPE_CWND_PACKETS * max_datagram_size) as u32")
         bits = max(int(m.group(1)[1:]), int(mt.group(1)[1:]))
         o.define("bbrMinWindowProductBits", "Nat", str(bits), "width of the integer type the product is computed in")
+    elif m and b and mt and ws(b) == "MIN_PIPE_CWND_PACKETS as u32 * max_datagram_size as u32":
+        o.define("bbrMinPipeCwndPackets", "Nat", m.group(2), "bbr.rs MIN_PIPE_CWND_PACKETS; minimum_window = MIN_PIPE_CWND_PACKETS as u32 * max_datagram_size as u32")
+        o.define("bbrMinWindowProductBits", "Nat", "32", "width of the integer type the product is computed in (both operands widened to u32 first)")
     else:
         o.fail("bbrMinPipeCwndPackets", "Nat", "0", "MIN_PIPE_CWND_PACKETS / minimum_window shape changed")
         o.fail("bbrMinWindowProductBits", "Nat", "0", "MIN_PIPE_CWND_PACKETS / minimum_window shape changed")
